@@ -38,6 +38,7 @@ Proof.
     + split; [discriminate|]. destruct (pl_req_of cfg c) as [[]|] eqn:E2; try discriminate. intros H; inversion H; subst; congruence.
     + split; [discriminate|]. destruct (pl_req_of cfg c) as [[]|] eqn:E2; try discriminate. intros H; inversion H; subst; congruence.
     + split; [discriminate|]. destruct (pl_req_of cfg c) as [[]|] eqn:E2; try discriminate. intros H; inversion H; subst; congruence.
+    + split; [discriminate|]. destruct (pl_req_of cfg c) as [[]|] eqn:E2; try discriminate. intros H; inversion H; subst; congruence.
   - intros u c. split.
     + destruct (pl_req_of cfg u) as [[]|]; discriminate.
     + destruct (pl_req_of cfg c) as [[]|]; discriminate.
@@ -68,7 +69,7 @@ Definition user_ok (old new : tstate) : Prop :=
   forall p, new = TU p -> exists p0, old = TU p0 /\ p0 <> UDone.
 
 (* fields the invariant does not mention *)
-Lemma inv_set_req s r : Inv s -> Inv (set_req s r).
+Lemma inv_set_disp s r : Inv s -> Inv (set_disp s r).
 Proof. intros I; dI I; constructor; auto. Qed.
 Lemma inv_set_mapped s b : Inv s -> Inv (set_mapped s b).
 Proof. intros I; dI I; constructor; auto. Qed.
@@ -294,7 +295,7 @@ Proof. destruct s; unfold set_crashed; simpl. rewrite Bool.orb_false_r. reflexiv
 Lemma step_inv cfg s t : Inv s -> Inv (pl_step cfg s t).
 Proof.
   intros I. unfold pl_step.
-  destruct (ps_thr s t) as [|p|p|p|] eqn:Et; auto.
+  destruct (ps_thr s t) as [|p|p|p| |p] eqn:Et; auto.
   - (* work thread *)
     destruct p; simpl; auto.
     + destruct (ps_mapped s); apply inv_thr; auto; try (rewrite Et; reflexivity);
@@ -310,7 +311,7 @@ Proof.
       * repeat split; discriminate.
       * intros p E; discriminate.
   - (* user thread *)
-    destruct (pl_req_of cfg t) as [[|proxy src sport eof|u|]|]; auto.
+    destruct (pl_req_of cfg t) as [[|proxy src sport eof|u| |]|]; auto.
     destruct p as [i|i|i|i c|i c|]; simpl; auto.
     + (* UTry *)
       unfold ch_try_recv. destruct (ch_q (ps_ch s)) as [|c r] eqn:Eq.
@@ -320,22 +321,21 @@ Proof.
            intros p E. rewrite Et. eexists; split; eauto; discriminate.
       * eapply inv_take; eauto; [discriminate|rewrite Et; reflexivity].
     + (* UReq *)
-      destruct (pl_send_fails s eof).
-      * eapply inv_user_close; eauto; [discriminate|rewrite Et; reflexivity].
-      * apply (inv_thr (set_req s (ps_req s + 1))); [apply inv_set_req; auto|simpl; rewrite Et; reflexivity|repeat split; discriminate|].
+      destruct (pl_send cfg s eof); auto.
+      * apply (inv_thr (pl_enqueue s)); [apply inv_set_disp; auto|simpl; rewrite Et; reflexivity|repeat split; discriminate|].
         simpl. intros p E. rewrite Et. eexists; split; eauto; discriminate.
+      * eapply inv_user_close; eauto; [discriminate|rewrite Et; reflexivity].
     + (* UWait *)
       unfold ch_try_recv. destruct (ch_q (ps_ch s)) as [|c r] eqn:Eq.
       * destruct (ch_closed (ps_ch s)); auto.
         eapply inv_user_close; eauto; [discriminate|rewrite Et; reflexivity].
       * eapply inv_take; eauto; [discriminate|rewrite Et; reflexivity].
     + (* URepl *)
-      assert (Inv (if pl_send_fails s eof then s else set_req s (ps_req s + 1))) as I1
-        by (destruct (pl_send_fails s eof); auto using inv_set_req).
-      apply inv_thr; auto.
-      * destruct (pl_send_fails s eof); simpl; rewrite Et; reflexivity.
-      * repeat split; discriminate.
-      * intros p E. exists (URepl i c). split; [|discriminate]. destruct (pl_send_fails s eof); simpl; auto.
+      destruct (pl_send cfg s eof); auto.
+      * apply (inv_thr (pl_enqueue s)); [apply inv_set_disp; auto|simpl; rewrite Et; reflexivity|repeat split; discriminate|].
+        simpl. intros p E. rewrite Et. eexists; split; eauto; discriminate.
+      * apply inv_thr; auto; [rewrite Et; reflexivity|repeat split; discriminate|].
+        intros p E. rewrite Et. eexists; split; eauto; discriminate.
     + (* UWrite *)
       destruct (cf_dead cfg c).
       * destruct (i + 1 <? ps_pc s + 1).
@@ -366,9 +366,18 @@ Proof.
       rewrite <- (set_crashed_id (set_mapped s false)). simpl.
       apply (inv_tt (set_mapped s false) t TDel TFin false); auto using inv_set_mapped; try discriminate.
   - (* timer *)
-    destruct (pl_req_of cfg t) as [[|proxy src sport eof|u|]|]; auto.
-    unfold pl_step_timer. destruct (ps_thr s u) as [|p|p|p|] eqn:Eu; auto. destruct p; auto.
+    destruct (pl_req_of cfg t) as [[|proxy src sport eof|u| |]|]; auto.
+    unfold pl_step_timer. destruct (ps_thr s u) as [|p|p|p| |p] eqn:Eu; auto. destruct p; auto.
     eapply inv_user_close; eauto; [discriminate|rewrite Eu; reflexivity].
+  - (* send loop *)
+    assert (K : forall s', Inv s' -> ps_thr s' t = TS p -> Inv (set_thr s' t (TS SLEnd))).
+    { intros s' I' E'. apply inv_thr; auto; [rewrite E'; reflexivity|repeat split; discriminate|intros q E; discriminate]. }
+    destruct p; simpl; auto.
+    destruct (ps_ddone s); [apply K; auto|].
+    destruct (0 <? d_q (ps_disp s)); auto.
+    destruct (cf_wfail cfg (d_deq (ps_disp s))); [|apply inv_set_disp; auto].
+    destruct (cf_sl_survives cfg); [apply inv_set_disp; auto|].
+    apply K; [apply inv_set_disp; auto|simpl; auto].
 Qed.
 
 Lemma run_inv cfg sched : forall s, Inv s -> Inv (pl_run cfg sched s).
@@ -386,7 +395,7 @@ Ltac brk := repeat (match goal with
 
 Lemma step_pc cfg s t : ps_pc (pl_step cfg s t) = ps_pc s.
 Proof.
-  unfold pl_step, pl_step_work, pl_step_user, pl_step_teardown, pl_step_timer, pl_user_close, ch_try_send, ch_try_recv.
+  unfold pl_step, pl_step_work, pl_step_user, pl_step_teardown, pl_step_timer, pl_step_sendloop, pl_send, pl_enqueue, pl_user_close, ch_try_send, ch_try_recv.
   brk.
 Qed.
 
@@ -461,14 +470,14 @@ Theorem no_orphan_after_teardown cfg sched c :
 Proof.
   intros s Hfin [t0 Ht0] Hcr. pose proof (exec_inv cfg sched) as I. fold s in I.
   unfold pl_view. destruct (ps_fate s c) eqn:E; auto.
-  - apply (i_held s I) in E. specialize (Hfin t). destruct (ps_thr s t) as [|[]|[]|[]|]; simpl in *; discriminate.
+  - apply (i_held s I) in E. specialize (Hfin t). destruct (ps_thr s t) as [|[]|[]|[]| |[]]; simpl in *; discriminate.
   - apply (i_q s I) in E. destruct (i_drained s I t0) as [_ Hq]; auto. unfold qof in *. rewrite Hq in E. destruct E.
   - right. right. exists u. split; auto. apply (i_bridged s I). exact E.
 Qed.
 
 (* ====== stability lemmas; surplus and late offers ====== *)
 
-Ltac unf := unfold pl_step, pl_step_work, pl_step_user, pl_step_teardown, pl_step_timer, pl_user_close, ch_try_send, ch_try_recv.
+Ltac unf := unfold pl_step, pl_step_work, pl_step_user, pl_step_teardown, pl_step_timer, pl_step_sendloop, pl_send, pl_enqueue, pl_user_close, ch_try_send, ch_try_recv.
 
 Ltac hyp := repeat match goal with
   | H : (if ?x then _ else _) = _ |- _ => destruct x eqn:?
@@ -927,4 +936,127 @@ Proof.
   intros s H. destruct (uinv_exec cfg sched u) as [p Hp]; [fold s; congruence|]. fold s in Hp.
   exists p. split; auto. intros ->.
   destruct (i_done s (exec_inv cfg sched) u Hp) as [Hc|[c Hc]]; congruence.
+Qed.
+
+From FRP Require Import gen.GenPoolClamp.
+
+(* ====== the send path of GetWorkConn ====== *)
+
+Record DInv (cfg : pcfg) (s : pst) : Prop := {
+  d_bound : 0 <= d_q (ps_disp s) <= cf_qcap cfg;
+  d_loop : forall t, pl_req_of cfg t = Some RSendLoop ->
+             ps_thr s t = TS SLRun \/ (ps_thr s t = TS SLEnd /\ ps_ddone s = true);
+  d_user : forall t p, ps_thr s t = TU p -> exists proxy src sport eof, pl_req_of cfg t = Some (RUser proxy src sport eof)
+}.
+
+Definition start_fits (cfg : pcfg) : Prop :=
+  pl_pool_count (cf_client_pc cfg) (cf_server_max cfg) <= cf_qcap cfg.
+
+Lemma dinv_init cfg : start_fits cfg -> DInv cfg (pl_init cfg).
+Proof.
+  intros F. unfold start_fits in F. constructor; simpl.
+  - rewrite start_requests_spec. rewrite pool_count_spec in F. lia.
+  - intros t H. unfold pl_init_thr. rewrite H. auto.
+  - intros t p. unfold pl_init_thr. destruct (pl_req_of cfg t) as [[]|]; try discriminate. eauto.
+Qed.
+
+Lemma dinv_step cfg s t : cf_sl_survives cfg = true -> DInv cfg s -> DInv cfg (pl_step cfg s t).
+Proof.
+  intros Sv [Db Dl Du].
+  unf. brk; hyp; simpl in *; try congruence;
+  (constructor; simpl; auto; try lia;
+   first
+   [ solve [ intros ? Hr; unfold upd; eqs; auto;
+             destruct (Dl _ Hr) as [Hx|[Hx Hy]]; try discriminate; try congruence; auto ]
+   | solve [ intro; intro; unfold upd; eqs; eauto; try discriminate ]
+   | idtac ]).
+Qed.
+
+Lemma dinv_exec cfg sched : cf_sl_survives cfg = true -> start_fits cfg -> DInv cfg (pl_exec cfg sched).
+Proof.
+  intros Sv F. unfold pl_exec. generalize (dinv_init cfg F). generalize (pl_init cfg).
+  induction sched as [|t r IH]; simpl; intros s I; auto. apply IH, dinv_step; auto.
+Qed.
+
+(* the send loop of a live session never stops: it survives failed writes; it ends only with doneCh *)
+Theorem sendloop_alive_until_done cfg sched k :
+  cf_sl_survives cfg = true -> start_fits cfg -> pl_req_of cfg k = Some RSendLoop ->
+  let s := pl_exec cfg sched in ps_thr s k = TS SLRun \/ ps_ddone s = true.
+Proof.
+  intros Sv F Hk s. destruct (d_loop _ _ (dinv_exec cfg sched Sv F) k Hk) as [H|[_ H]]; auto.
+Qed.
+
+Lemma send_not_blocked cfg s eof :
+  ps_ddone s = true \/ d_q (ps_disp s) < cf_qcap cfg -> pl_send cfg s eof <> SendBlocked.
+Proof.
+  intros H. unfold pl_send. destruct (ps_ddone s) eqn:Ed.
+  - destruct (_ <? _); [destruct eof|]; discriminate.
+  - destruct H as [H|H]; [discriminate|]. destruct (d_q (ps_disp s) <? cf_qcap cfg) eqn:E; [discriminate|lia].
+Qed.
+
+(* Dispatcher.Send inside GetWorkConn returns after at most one turn of the send loop, in every reachable
+   state and whatever writes have failed: a user standing in one of the two Sends (before the wait, where
+   its timer does not exist yet, or the replacement request) has left it after "send loop, then user" *)
+Theorem send_returns_after_sendloop_turn cfg sched u k :
+  cf_sl_survives cfg = true -> start_fits cfg -> 0 < cf_qcap cfg -> pl_req_of cfg k = Some RSendLoop ->
+  let s := pl_exec cfg sched in
+  let s2 := pl_step cfg (pl_step cfg s k) u in
+  (forall i, ps_thr s u = TU (UReq i) ->
+     ps_thr s2 u = TU (UWait i) \/ (ps_thr s2 u = TU UDone /\ ps_user s2 u = UClosed)) /\
+  (forall i c, ps_thr s u = TU (URepl i c) -> ps_thr s2 u = TU (UWrite i c)).
+Proof.
+  intros Sv F Hq Hk s s2. pose proof (dinv_exec cfg sched Sv F) as D. fold s in D.
+  destruct D as [Db Dl Du].
+  (* the send loop's turn: afterwards doneCh is closed or the queue has room; nothing of u changed *)
+  assert (L : forall x, ps_thr s u = TU x ->
+              ps_thr (pl_step cfg s k) u = TU x /\
+              (ps_ddone (pl_step cfg s k) = true \/ d_q (ps_disp (pl_step cfg s k)) < cf_qcap cfg)).
+  { intros x Hu. assert (Nk : u <> k).
+    { intros ->. destruct (Dl k Hk) as [H|[H _]]; congruence. }
+    unfold pl_step. destruct (Dl k Hk) as [H|[H Hd]]; rewrite H; simpl.
+    - destruct (ps_ddone s) eqn:Ed.
+      + simpl. unfold upd. destruct (Nat.eqb_spec u k); [congruence|]. auto.
+      + destruct (0 <? d_q (ps_disp s)) eqn:E0.
+        * destruct (cf_wfail cfg (d_deq (ps_disp s))); [rewrite Sv|]; simpl; split; auto; right; lia.
+        * split; auto. right. lia.
+    - split; auto. }
+  split.
+  - intros i Hu. destruct (L _ Hu) as [Hu1 Hr]. destruct (Du u _ Hu) as (proxy & src & sport & eof & Hreq).
+    unfold s2. set (s1 := pl_step cfg s k) in *.
+    assert (E : pl_step cfg s1 u = pl_step_user cfg s1 u (UReq i) proxy src sport eof)
+      by (unfold pl_step; rewrite Hu1, Hreq; reflexivity).
+    rewrite E. simpl. pose proof (send_not_blocked cfg s1 eof Hr) as Nb.
+    destruct (pl_send cfg s1 eof); try congruence;
+      first [ left; simpl; unfold upd; rewrite Nat.eqb_refl; reflexivity
+            | right; unfold pl_user_close; simpl; unfold upd; rewrite Nat.eqb_refl; auto ].
+  - intros i c Hu. destruct (L _ Hu) as [Hu1 Hr]. destruct (Du u _ Hu) as (proxy & src & sport & eof & Hreq).
+    unfold s2. set (s1 := pl_step cfg s k) in *.
+    assert (E : pl_step cfg s1 u = pl_step_user cfg s1 u (URepl i c) proxy src sport eof)
+      by (unfold pl_step; rewrite Hu1, Hreq; reflexivity).
+    rewrite E. simpl. pose proof (send_not_blocked cfg s1 eof Hr) as Nb.
+    destruct (pl_send cfg s1 eof); try congruence; simpl; unfold upd; rewrite Nat.eqb_refl; auto.
+Qed.
+
+(* ====== NewControl's integer code as regenerated from today's source (translator unit T11send/clamp) ====== *)
+From Coq Require Import ZifyBool.
+
+(* for EVERY client value and EVERY server maximum, zero and negative included: the stored poolCount computed
+   by the regenerated statements is the model's clamp, i.e. max 0 (min client server); the capacity of
+   workConnCh is that + 10; Start's loop is bounded by the stored value; nothing was left untranslated.
+   The script is generic (unfold, case split on every condition, linear arithmetic): it goes through for any
+   equivalent rewriting of the clamp and fails for any that computes something else. *)
+Theorem generated_pool_code_bounded :
+  gen11_unknown = false /\ gen11_start_bound_is_stored = true /\
+  forall c m, gen11_stored c m = pl_pool_count c m /\
+              gen11_stored c m = Z.max 0 (Z.min c m) /\
+              gen11_chan_cap c m = pl_cap (pl_pool_count c m) /\
+              gen11_chan_cap c m = Z.max 0 (Z.min c m) + 10.
+Proof.
+  split; [reflexivity|]. split; [reflexivity|]. intros c m.
+  unfold pl_cap, pl_slack, pl_pool_count.
+  cbv beta zeta delta [gen11_stored gen11_chan_cap gen11_env].
+  repeat match goal with
+         | |- context [if ?b then _ else _] => destruct b eqn:?
+         | H : context [if ?b then _ else _] |- _ => destruct b eqn:?
+         end; lia.
 Qed.
